@@ -534,6 +534,26 @@ fn gen_fault(rng: &mut Rng, st: &Steer, m: M, x: u8, y: u8) -> Option<Fault> {
         0 => {
             // matcher panic at a pattern no later than the first accepting one
             let pats = st.flat.of_method(m);
+            // sometimes the trap sits on a matcher that must not be evaluated at all
+            if rng.chance(1, 4) && pats.len() >= 2 {
+                let idle: Vec<u16> = if st.flat.ordered(m) {
+                    match slot_owner(&st.flat, st.ordered_index) {
+                        Some(p) if p.m == m => pats.iter().filter(|q| q.uid != p.uid).map(|q| q.uid).collect(),
+                        _ => vec![],
+                    }
+                } else {
+                    match st.first_accepting(m, x, y) {
+                        Some(uid) => {
+                            let first = st.flat.patterns[uid as usize].index;
+                            pats.iter().filter(|q| q.index > first).map(|q| q.uid).collect()
+                        }
+                        None => vec![],
+                    }
+                };
+                if !idle.is_empty() {
+                    return Some(Fault::MatcherMustNotRun { uid: *rng.pick(&idle) });
+                }
+            }
             if !pats.is_empty() && st.flat.ordered(m) {
                 // the matcher of the pattern owning the current slot
                 return match slot_owner(&st.flat, st.ordered_index) {
@@ -647,9 +667,7 @@ pub fn gen_history(rng: &mut Rng, cfg: &Config, o: &HistOpts) -> (Vec<Vec<Op>>, 
         } else {
             None
         };
-        if fault.is_none() {
-            st.apply(m, x, y);
-        } else if matches!(fault, Some(Fault::ProgPanic { .. })) {
+        if fault.is_none() || matches!(fault, Some(Fault::ProgPanic { .. }) | Some(Fault::MatcherMustNotRun { .. }) | Some(Fault::WhileUnwinding)) {
             st.apply(m, x, y);
         }
         last_args.push((m, x, y));
